@@ -9,7 +9,6 @@ import (
 	"bufio"
 	"bytes"
 	"io"
-	"runtime"
 	"strconv"
 	"sync"
 	"time"
@@ -36,15 +35,7 @@ const isoSdp = "v=0\r\no=- 0 0 IN IP4 127.0.0.1\r\ns=t\r\nc=IN IP4 127.0.0.1\r\n
 var processFrames = [][]byte{[]byte("rtp.(*Demuxer).process"), []byte("flv.(*Muxer).process"), []byte("mpegts.(*Muxer).process")}
 
 func countConverters() [3]int {
-	buf := make([]byte, 1<<20)
-	for {
-		n := runtime.Stack(buf, true)
-		if n < len(buf) {
-			buf = buf[:n]
-			break
-		}
-		buf = make([]byte, 2*len(buf))
-	}
+	buf := stackDump()
 	var out [3]int
 	for _, blk := range bytes.Split(buf, []byte("\n\n")) {
 		for i, f := range processFrames {
@@ -139,16 +130,31 @@ func newIsoStream() *isoStream {
 	return st
 }
 
-// feed runs the session's receive loop over data on its own goroutine; a panic is what would end the
-// session goroutine, and a loop that does not come back within 3 s is stuck (e.g. on a wedged mutex)
-func (st *isoStream) feed(data []byte) (bad bool) {
+// feed runs the session's receive loop over data on its own goroutine and waits for it to come
+// back.  bad = it panicked (what would end the session goroutine), or the whole process has gone
+// quiescent while the loop is still inside (it is blocked for good, e.g. on a wedged mutex).
+// uneval = the machine did not let us see either within the long bound.
+func (st *isoStream) feed(data []byte) (bad, uneval bool) {
 	res := make(chan bool, 1)
 	go func() { res <- st.feedNow(data) }()
-	select {
-	case p := <-res:
-		return p
-	case <-time.After(3 * time.Second):
-		return true
+	deadline := time.Now().Add(longBound)
+	for {
+		select {
+		case p := <-res:
+			return p, false
+		case <-time.After(time.Millisecond):
+		}
+		if othersBlocked() && othersBlocked() && othersBlocked() {
+			select {
+			case p := <-res:
+				return p, false
+			default:
+				return true, false
+			}
+		}
+		if time.Now().After(deadline) {
+			return false, true
+		}
 	}
 }
 
@@ -204,23 +210,12 @@ func (st *isoStream) maxSegment() int {
 	return best
 }
 
-func waitFor(cond func() bool, d time.Duration) bool {
-	deadline := time.Now().Add(d)
-	for {
-		if cond() {
-			return true
-		}
-		if time.Now().After(deadline) {
-			return false
-		}
-		time.Sleep(200 * time.Microsecond)
-	}
-}
-
-// probe: valid packets through the session; true iff RTP relay, FLV video + audio tags and a new HLS segment all appear
-func (st *isoStream) probe() bool {
+// probeSend: valid packets through the session (a slice with an id on the video channel, an AU with
+// the id on the audio channel, two key frames 6 s apart).  probeCheck, called at quiescence (every
+// queue drained): the RTP relay, the FLV video and audio tags and a new HLS segment must be there.
+func (st *isoStream) probeSend() (id uint32, bad, uneval bool) {
 	st.nextID++
-	id := st.nextID
+	id = st.nextID
 	var b []byte
 	st.ts += 3600
 	b = append(b, frame(0, 96, st.seq, st.ts, withID([]byte{0x41, 0x9a}, id))...)
@@ -230,34 +225,57 @@ func (st *isoStream) probe() bool {
 	apl := append([]byte{0, 16, byte(len(au) >> 5), byte(len(au) << 3)}, au...)
 	b = append(b, frame(2, 97, st.aseq, st.ats, apl)...)
 	st.aseq++
-	if st.feed(b) {
-		return false
-	}
-	ok := waitFor(func() bool { return st.rtpSeen.has(id) && st.flvV.has(id) && st.flvA.has(id) }, 3*time.Second)
-	if !ok {
-		return false
-	}
-	// HLS: key frames 6 s apart close segments; garbage may have bent one segment's clock, so allow a few rounds
-	for round := 0; round < 4; round++ {
-		var k []byte
-		for i := 0; i < 2; i++ {
-			st.ts += 6 * 90000
-			k = append(k, frame(0, 96, st.seq, st.ts, []byte{0x65, 0x88, byte(id), byte(round)})...)
-			st.seq++
-		}
-		if st.feed(k) {
-			return false
-		}
-		if waitFor(func() bool { return st.maxSegment() > st.lastSeg }, 500*time.Millisecond) {
-			st.lastSeg = st.maxSegment()
-			return true
-		}
-	}
-	return false
+	b = append(b, st.keyFrames(id, 0)...)
+	bad, uneval = st.feed(b)
+	return
 }
 
-// join: a new consumer attaches (RTP and FLV) and detaches; false = it did not return (mutex wedged)
-func (st *isoStream) join() bool {
+func (st *isoStream) keyFrames(id uint32, round int) []byte {
+	var k []byte
+	for i := 0; i < 2; i++ {
+		st.ts += 6 * 90000
+		k = append(k, frame(0, 96, st.seq, st.ts, []byte{0x65, 0x88, byte(id), byte(round)})...)
+		st.seq++
+	}
+	return k
+}
+
+func (st *isoStream) probeCheck(id uint32) (ok, uneval bool) {
+	if !(st.rtpSeen.has(id) && st.flvV.has(id) && st.flvA.has(id)) {
+		return false, false
+	}
+	// garbage may have bent one segment's clock, so allow a few more rounds of key frames
+	for round := 1; ; round++ {
+		if m := st.maxSegment(); m > st.lastSeg {
+			st.lastSeg = m
+			return true, false
+		}
+		if round == 4 {
+			return false, false
+		}
+		if bad, un := st.feed(st.keyFrames(id, round)); bad || un {
+			return false, un
+		}
+		if !quiesce() {
+			return false, true
+		}
+	}
+}
+
+func (st *isoStream) probe() (ok, uneval bool) {
+	id, bad, un := st.probeSend()
+	if bad || un {
+		return false, un
+	}
+	if !quiesce() {
+		return false, true
+	}
+	return st.probeCheck(id)
+}
+
+// joinStart: a new consumer attaches (RTP and FLV) and detaches, on its own goroutine; at quiescence it
+// must have come back (otherwise the join mutex is wedged)
+func (st *isoStream) joinStart() chan struct{} {
 	done := make(chan struct{})
 	go func() {
 		c1 := st.s.StartConsume(&rtpConsumer{newSeen()}, media.RTPPacket, "join")
@@ -266,12 +284,7 @@ func (st *isoStream) join() bool {
 		st.s.StopConsume(c2)
 		close(done)
 	}()
-	select {
-	case <-done:
-		return true
-	case <-time.After(2 * time.Second):
-		return false
-	}
+	return done
 }
 
 var isoQuiet sync.Once
@@ -287,16 +300,22 @@ func (st *isoStream) pin() {
 		r[16], r[17], r[18], r[19] = byte(rt>>24), byte(rt>>16), byte(rt>>8), byte(rt)
 		return d
 	}
-	st.feed(append(sr(1, st.ts), sr(3, st.ats)...))
+	_, _ = st.feed(append(sr(1, st.ts), sr(3, st.ats)...))
 }
 
 // case = (pin (fault ...)), each fault = bytes of well-framed interleaved frames for stream A
 func isoRun(c Val) Val {
 	isoQuiet.Do(func() { xlog.ReplaceGlobal(xlog.New(xlog.NewNopCore())) })
-	base := countConverters()
+	// the converters of the previous case have been told to stop: wait until they are gone
+	if !quiesce() {
+		return unevalVal("not quiescent before the case")
+	}
+	if countConverters() != [3]int{0, 0, 0} {
+		return L(S("!leak"), S("conversion goroutines of an earlier case are still there at quiescence"))
+	}
 	a, b := newIsoStream(), newIsoStream()
 	defer func() { a.s.Close(); b.s.Close() }()
-	want := [3]int{base[0] + 2, base[1] + 2, base[2] + 2}
+	want := [3]int{2, 2, 2}
 	if c.At(0).Bool() {
 		a.pin()
 		b.pin()
@@ -305,16 +324,40 @@ func isoRun(c Val) Val {
 	a.probe()
 	b.probe()
 	out := []Val{}
-	for _, f := range c.At(1).List() {
-		panicked := a.feed(f.Bytes())
-		other := b.probe()
-		self := a.probe()
-		join := a.join()
-		gor := waitFor(func() bool { return countConverters() == want }, 300*time.Millisecond)
+	faults := c.At(1).List()
+	for _, f := range faults {
+		panicked, un := a.feed(f.Bytes())
+		if un {
+			return unevalVal("receive loop of the faulted stream")
+		}
+		idB, badB, un1 := b.probeSend()
+		idA, badA, un2 := a.probeSend()
+		joined := a.joinStart()
+		if un1 || un2 || !quiesce() {
+			return unevalVal("probe / join")
+		}
+		join := false
+		select {
+		case <-joined:
+			join = true
+		default: // quiescent and still inside StartConsume / StopConsume
+		}
+		other, self := false, false
+		if !badB {
+			if other, un1 = b.probeCheck(idB); un1 {
+				return unevalVal("probe of the other stream")
+			}
+		}
+		if !badA {
+			if self, un2 = a.probeCheck(idA); un2 {
+				return unevalVal("probe of the faulted stream")
+			}
+		}
+		gor := countConverters() == want
 		out = append(out, L(Bo(panicked), Bo(other), Bo(self), Bo(join), Bo(gor)))
 		if panicked || !other || !self || !join || !gor {
-			// the process is damaged: everything after it would only repeat the time-outs
-			for len(out) < len(c.At(1).List()) {
+			// the process is damaged: everything after it would only repeat it
+			for len(out) < len(faults) {
 				out = append(out, L(I(2), I(0), I(0), I(0), I(0)))
 			}
 			break
